@@ -3,12 +3,14 @@
 From Coq Require Import NArith ZArith List Bool.
 From AJ Require Import Model.Base Model.Value Model.Utf Model.NumParse Model.JsonParse.
 From AJ Require Import Spec.Utf8Spec Spec.Rfc8259 Spec.ParseSpec Proofs.Lex Proofs.ParseComplete Proofs.GenAgree.
+From AJ Require Proofs.NoMemory.
 From AJ Require Gen.Tables Gen.Config.
 Local Open Scope N_scope.
 
 (* Every RFC 8259 text (Spec/Rfc8259.v: any whitespace layout, any escape spelling incl. \uXXXX in any
    case and surrogate pairs, any number spelling, any key set) whose syntactic depth is at most the nesting
-   limit and whose number literals have at most 63 characters is accepted, and the document is the value
+   limit, whose number literals have at most 63 characters and whose strings and keys decode to at most 65535
+   bytes (StringNode::maxLength; the conjunct [string_fits] of [jstring]) is accepted, and the document is the value
    the grammar assigns: same structure and order, strings = UTF-8 of the decoded code points, a repeated
    key keeps its first position and its last value, a number literal denotes what parseNumber computes for
    it (its exactness / accuracy is C12).  The destination does not appear: json_run has no such input. *)
@@ -17,6 +19,30 @@ Theorem C01_valid_json_denotes : forall cf, decode_unicode cf = true ->
   j_err (json_run cf None L i) = Ok /\ j_doc (json_run cf None L i) = v.
 Proof. exact json_run_complete. Qed.
 Print Assumptions C01_valid_json_denotes.
+
+(* the string limit is exact: an RFC 8259 string (any escape spelling) is accepted if and only if it decodes to
+   at most 65535 bytes ... *)
+Theorem C01_string_limit_is_exact : forall cf, decode_unicode cf = true ->
+  forall body str, jchars body str ->
+  forall L, (j_err (json_run cf None L ([34] ++ body ++ [34])) = Ok <-> N.of_nat (length str) <= 65535).
+Proof. exact NoMemory.rfc_string_accepted_iff_fits. Qed.
+Print Assumptions C01_string_limit_is_exact.
+
+(* ... a longer one, wherever it stands at top level, is read up to and including its closing quote and then
+   refused with NoMemory (no document; the bytes read are exactly the whitespace and the string) *)
+Theorem C01_long_string_is_NoMemory : forall cf, decode_unicode cf = true ->
+  forall body str, jchars body str -> 65536 <= N.of_nat (length str) ->
+  forall L w rest, ws w ->
+    let o := json_run cf None L (w ++ ([34] ++ body ++ [34]) ++ rest) in
+    j_err o = NoMemory /\ j_doc o = JNull /\
+    reads (j_st o) = N.of_nat (length (w ++ [34] ++ body ++ [34])) /\ stream (j_st o) = rest.
+Proof. exact NoMemory.rfc_long_string_is_NoMemory. Qed.
+Print Assumptions C01_long_string_is_NoMemory.
+
+(* and no document the reader returns holds a string or a key above the limit (any input, any filter, any outcome) *)
+Theorem C01_built_strings_fit : forall cf f L i, NoMemory.strings_fit (j_doc (json_run cf f L i)).
+Proof. exact NoMemory.json_run_strings_fit. Qed.
+Print Assumptions C01_built_strings_fit.
 
 (* the depth-indexed grammar is the RFC grammar *)
 Theorem C01_grammar_is_rfc8259 : forall nd t v, jtext nd t v <-> exists d, jtextD nd d t v.
